@@ -236,6 +236,20 @@ def solve_obligation(ctx, ob, timeout_ms=10000, use_cvc5=True, want_model=True):
             if c == "sat":
                 res["status"] = "unknown"      # no model extraction from the CLI: keep undecided
                 res["note"] = "cvc5 says sat, z3 unknown"
+    if r == z3.unsat and os.environ.get("PYVC_CROSSCHECK") == "1" and use_cvc5:
+        # thorough tier: every proof is re-checked by an independent solver binary on the SMT-LIB text of the same (instantiated) query:
+        # cvc5 1.0.3 first, then the system z3 4.8.12.  `sat` from either is a solver disagreement -> the obligation is undecided.
+        smt = "(set-logic ALL)\n" + s.to_smt2()
+        budget = min(timeout_ms, 20000)
+        c = run_cvc5(smt, budget)
+        who = "cvc5-cli"
+        if c == "unknown":
+            c = run_z3_cli(smt, budget)
+            who = "z3-4.8.12-cli"
+        res["crosscheck"] = "%s:%s" % (who, c)
+        if c == "sat":
+            res["status"] = "unknown"
+            res["note"] = "solver disagreement: z3 5.1 says unsat, %s says sat" % who
     if r == z3.sat and want_model:
         res["model"] = s.model()
     res["time_s"] = round(time.time() - t0, 4)
@@ -255,6 +269,23 @@ def run_cvc5(smt_text, timeout_ms):
     try:
         out = subprocess.run([exe, "--tlimit=%d" % timeout_ms, "--nl-ext-tplanes", p], capture_output=True, text=True,
                              timeout=timeout_ms / 1000 + 5)
+        o = out.stdout.strip().split("\n")[0] if out.stdout.strip() else "unknown"
+        return o if o in ("sat", "unsat") else "unknown"
+    except Exception:
+        return "unknown"
+    finally:
+        os.unlink(p)
+
+
+def run_z3_cli(smt_text, timeout_ms):
+    exe = "/usr/bin/z3"
+    if not os.path.exists(exe):
+        return "unknown"
+    with tempfile.NamedTemporaryFile("w", suffix=".smt2", delete=False, dir=os.environ.get("PYVC_TMP", None)) as f:
+        f.write(smt_text)
+        p = f.name
+    try:
+        out = subprocess.run([exe, "-T:%d" % max(1, timeout_ms // 1000), p], capture_output=True, text=True, timeout=timeout_ms / 1000 + 5)
         o = out.stdout.strip().split("\n")[0] if out.stdout.strip() else "unknown"
         return o if o in ("sat", "unsat") else "unknown"
     except Exception:
